@@ -248,9 +248,22 @@ func ruleSHADOW(p *Program, rep *Report) {
 					if c, ok := ins.(ssa.CallInstruction); ok && c.Common().StaticCallee() == g && len(c.Common().Args) > 1 && derivesFromField(c.Common().Args[1], ov.metaActive, 0) {
 						hdrUse = true
 					}
+					// checkpoint copy through the page-write primitive: followed in the same block by freeWALID
+					// of the same page id
+					cpUse := false
+					if c, ok := ins.(ssa.CallInstruction); ok && c.Common().StaticCallee() == g && len(c.Common().Args) > 1 {
+						id := c.Common().Args[1]
+						for i := instrIndex(b, ins) + 1; i < len(b.Instrs); i++ {
+							if c2, ok := b.Instrs[i].(*ssa.Call); ok && v.releasesWAL(c2.Common().StaticCallee()) && len(c2.Common().Args) > 1 && c2.Common().Args[1] == id {
+								cpUse = true
+							}
+						}
+					}
 					switch {
 					case hdrUse:
 						rep.OK("SCHEDULE-SITES", key, p.InstrPos(ins), "header write (slot derived from File.metaActive), decided by ORDER/SLOT")
+					case cpUse:
+						rep.OK("SCHEDULE-SITES", key, p.InstrPos(ins), "checkpoint copy back to the original page, followed by freeWALID of the same id")
 					case f == v.doFlush:
 						rep.OK("SCHEDULE-SITES", key, p.InstrPos(ins), "decided by SHADOW")
 					case usedOnlyAsSerializeCallback(ins, g, walSer, allocSer) || wrapperOnlyForSerialize(p, f, walSer, allocSer):
